@@ -110,6 +110,7 @@ from iodata import IOData, dump_one, load_one
 import tempfile, os
 rng = np.random.default_rng(0)
 tmp = tempfile.mkdtemp()
+__import__("atexit").register(__import__("shutil").rmtree, tmp, True)
 for trial in range(400):
     cell = np.diag(rng.uniform(3, 30, 3)) + rng.uniform(-0.5, 0.5, (3, 3))
     mol = IOData(atnums=[8, 1, 1], atcoords=rng.uniform(-5, 5, (3, 3)), cellvecs=cell, title="t")
